@@ -35,6 +35,37 @@ theorem entry_regions_tight :
     ∀ e ∈ Spec.entries, Model.devEntry e.1 e.2.1 ≠ "-" → Spec.lookup Model.table e.1 e.2.1 ≠ some e.2.2 := by
   decide +kernel
 
+/-! ### "each of the specified kind": internal representation and behaviour of the start-up objects -/
+
+set_option maxRecDepth 1000000 in
+/-- every §15 object is represented (class field, table of internal methods, Go type of value) the way otto represents an
+    object of the kind ES5 says it is – Array.prototype dispatches through classArray, String.prototype through classString, … -/
+theorem kinds_match_spec : ∀ o ∈ Owner.all, Model.selfKind o = Spec.repOf o := by decide +kernel
+
+set_option maxRecDepth 1000000 in
+/-- … and therefore behaves as that kind in every probed aspect (index write → length, invalid length → RangeError, shrink
+    deletes, callable/not callable, wrapped value, NaN time value, …), outside the RegExp.prototype region -/
+theorem aspects_match_spec :
+    ∀ o ∈ Owner.all, ∀ a ∈ Spec.aspectsOf o, Model.devKind o a = "-" → Model.aspect o a = Spec.aspect o a := by decide +kernel
+
+set_option maxRecDepth 1000000 in
+theorem aspect_regions_tight :
+    ∀ o ∈ Owner.all, ∀ a ∈ Spec.aspectsOf o, Model.devKind o a ≠ "-" → Model.aspect o a ≠ Spec.aspect o a := by decide +kernel
+
+set_option maxRecDepth 1000000 in
+/-- every object-valued slot holds either a native function object (ordinary internal methods) or one of the owners -/
+theorem slot_kinds_wellformed :
+    ∀ e ∈ Spec.flatten Model.kindTable, e.2.2 = Model.fnKind ∨ Owner.all.any (fun o => Model.selfKind o = e.2.2) = true := by
+  decide +kernel
+
+set_option maxRecDepth 100000 in
+theorem behaviours_match_spec :
+    ∀ kv ∈ Spec.behaviours, Model.devBeh kv.1 = "-" → Spec.assoc kv.1 Model.behaviours = some kv.2 := by decide +kernel
+example : Spec.assoc "gmt_is_utc" Model.behaviours = some "false" ∧ Spec.assoc "gmt_is_utc" Spec.behaviours = some "true" := by decide
+
+example : Model.aspect .RegExpPrototype "retest" = some "throws:TypeError" ∧ Spec.aspect .RegExpPrototype "retest" = some "true" := by decide
+example : Spec.aspect .ArrayPrototype "idxlen" = some "6" ∧ Spec.aspect .ObjectPrototype "idxlen" = some "same" := by decide
+
 /-! ### for-in never shows a built-in: every slot otto creates (ES5 ones *and* otto's extras, `console` included)
     is non-enumerable -/
 set_option maxRecDepth 1000000 in
